@@ -4,6 +4,7 @@ C14 line-protocol driver:  `lake env lean --run Sc3Verif/C14/Driver.lean < ops`
   world (<latency> (desc <name> <keepgate> (<control> ...)) ...)
   event <t> (<(key value)> ...)         play one note event at logical time t
   pat <t> <epat>                        pattern.play() at logical time t
+  mono <t> <instrument> <articulate 0|1> <binds>   Pmono(instrument, binds, articulate).play()
   replay <t> (<(key value)> ...) (<dt> ...)   one event object played at t, t+dt1, ...
 Output: one line per OSC message `time cmd args…`, then `END <time reached> <died>`.
 -/
@@ -103,6 +104,17 @@ partial def loop (h out : IO.FS.Stream) (w : World) : IO Unit := do
       out.putStrLn s!"END {fmtRat t} {if raised then 1 else 0}"
       loop h out w'
     | _, _ => out.putStrLn "parse-error"; loop h out w
+  else if l.startsWith "mono " then
+    match (l.drop 5).toString.splitOn " " with
+    | t :: inst :: artic :: restl =>
+      match parseRat t, (readSx (" ".intercalate restl)).bind sxBinds with
+      | some t, some b =>
+        let (ms, w', t', died) := playMonoPattern w t inst (artic == "1") b
+        for m in ms do out.putStrLn (fmtMsg m)
+        out.putStrLn s!"END {fmtRat t'} {if died then 1 else 0}"
+        loop h out w'
+      | _, _ => out.putStrLn "parse-error"; loop h out w
+    | _ => out.putStrLn "parse-error"; loop h out w
   else if l.startsWith "replay " then
     let (t, rest) := splitHead (l.drop 7).toString
     match parseRat t, readSx ("(" ++ rest ++ ")") with
